@@ -38,28 +38,28 @@ theorem takeLast_loop (o : Rs.Obs) (c : Nat) (out : Rs.Out) :
       simp [lastN_of_le c q (by omega)]
 
 theorem tie_TakeLast_next (g : TakeLastObserver) (v : Val) :
-    (TakeLastObserver.next g v).map (fun r => (absTakeLast r.1, r.2)) = some (St1.onNext (absTakeLast g) v) := by
+    (TakeLastObserver.next g v).map (fun r => (absTakeLast r.1, r.2)) = some (Rs.lift (St1.onNext (absTakeLast g) v)) := by
   rcases g with ⟨o, c, q⟩
   rs_simp [TakeLastObserver.next, absTakeLast, St1.onNext]
   rw [takeLast_loop o c [] _ _ (by simp)]
   simp
 
 theorem tie_TakeLast_error (g : TakeLastObserver) (e : Err) :
-    (TakeLastObserver.error g e).map (fun r => r.2) = some (St1.onError' (absTakeLast g) e).2 := by
+    (TakeLastObserver.error g e).map (fun r => r.2) = some ((St1.onError' (absTakeLast g) e).2.map Rs.Ev.n) := by
   rcases g with ⟨⟩ <;> rs_tie [TakeLastObserver.error, absTakeLast, St1.onError']
 
 /-- the draining `for` loop of `TakeLastObserver::complete` -/
 theorem takeLast_drain (s : TakeLastObserver) :
     ∀ (q : List Val) (out : Rs.Out),
-      Rs.forEach q (s, out) (fun (p : TakeLastObserver × Rs.Out) value => some (p.fst, p.snd ++ [Notif.next value]))
-      = some (s, out ++ q.map Notif.next) := by
+      Rs.forEach q (s, out) (fun (p : TakeLastObserver × Rs.Out) value => some (p.fst, p.snd ++ [Rs.Ev.n (Notif.next value)]))
+      = some (s, out ++ q.map (fun v => Rs.Ev.n (Notif.next v))) := by
   intro q
   induction q with
   | nil => intro out; simp
   | cons x t ih => intro out; simp [ih, List.append_assoc]
 
 theorem tie_TakeLast_complete (g : TakeLastObserver) :
-    (TakeLastObserver.complete g).map (fun r => r.2) = some (St1.onComplete' (absTakeLast g)).2 := by
+    (TakeLastObserver.complete g).map (fun r => r.2) = some ((St1.onComplete' (absTakeLast g)).2.map Rs.Ev.n) := by
   rcases g with ⟨o, c, q⟩
   rs_simp [TakeLastObserver.complete, absTakeLast, St1.onComplete']
   rw [takeLast_drain]
